@@ -204,6 +204,9 @@ pub fn execute(plan: &Plan, ctx: &mut Ctx) {
     let mut err_then_present = 0u32; // reach probe state (integral/derivative)
     let mut since_err: Option<u32> = None;
     let mut set_same_ops: Vec<usize> = Vec::new();
+    let mut exps: Vec<Option<Exp>> = vec![None; plan.ops.len()];
+    let mut clean = true; // fault-free, one fresh strictly newer sample per update
+    let mut clean_samples: Vec<(usize, i64, f32)> = Vec::new();
 
     for (i, op) in plan.ops.iter().enumerate() {
         ctx.cur_op = i;
@@ -235,6 +238,10 @@ pub fn execute(plan: &Plan, ctx: &mut Ctx) {
             "U" => {
                 let input = script.sen;
                 u_input[i] = Some(input);
+                match fval(&input) {
+                    Some((t, x)) if sensor_changes_since_u == 1 && clean_samples.last().map(|l| t > l.1).unwrap_or(true) => clean_samples.push((i, t, x)),
+                    _ => clean = false,
+                }
                 if sensor_changes_since_u == 0 && last_u_input.is_some() {
                     ctx.count("fault.dup");
                 }
@@ -309,6 +316,7 @@ pub fn execute(plan: &Plan, ctx: &mut Ctx) {
                 class = step.class;
                 is_reset = step.reset;
                 exp_ret = step.ret;
+                exps[i] = Some(step.out.clone());
                 exp = Some(step.out);
             }
             "SET" => {
@@ -731,6 +739,74 @@ pub fn execute(plan: &Plan, ctx: &mut Ctx) {
                 );
                 break;
             }
+        }
+    }
+
+    // (H9) composition twins on fault-free histories: C04 (PID from primitive streams), C10
+    if clean && !clean_samples.is_empty() && plan.ops[..n].iter().all(|o| matches!(o.code.as_str(), "S" | "U" | "G")) {
+        let samples: Vec<(i64, f32)> = clean_samples.iter().map(|(_, t, x)| (*t, *x)).collect();
+        let mut report = |ctx: &mut Ctx, prop: &str, j: usize, exp: &Exp, twin: &Out, what: &str| {
+            let cmp = check_exp(exp, twin, true);
+            if let Some((k, detail)) = cmp.bad {
+                ctx.violate(prop, "composed_twin", &kind, format!("sample {} (op {}): {} assembled from the crate's primitive streams disagrees with the model ({}): {}", j, clean_samples[j].0, what, k, detail));
+                true
+            } else {
+                false
+            }
+        };
+        match kind.as_str() {
+            "pid" => {
+                ctx.count("reach.composed_twin");
+                let twin = crate::node_twins::composed_pid(plan.getf("kp"), plan.getf("ki"), plan.getf("kd"), plan.getf("setpoint"), &samples);
+                for (j, (i, _, _)) in clean_samples.iter().enumerate() {
+                    if let Some(e) = &exps[*i] {
+                        if report(ctx, "C04", j, e, &twin[j], "the PID") {
+                            break;
+                        }
+                    }
+                }
+            }
+            "a2s" | "p2s" | "v2s" => {
+                ctx.count("reach.composed_twin");
+                let which = match kind.as_str() {
+                    "a2s" => ToState::A2S,
+                    "p2s" => ToState::P2S,
+                    _ => ToState::V2S,
+                };
+                // un-anchored model: the twin accumulates its own roundings
+                let mut m = ToStateModel::new(which);
+                let twin = match which {
+                    ToState::A2S => crate::node_twins::composed_a2s(&samples),
+                    ToState::P2S => crate::node_twins::composed_p2s(&samples),
+                    ToState::V2S => crate::node_twins::composed_v2s(&samples),
+                };
+                let u = m.required_unit();
+                for (j, (t, x)) in samples.iter().enumerate() {
+                    let step = m.update(&Out::Some(*t, Val::Q(x.to_bits(), u.0, u.1)));
+                    let bits = |o: &Out| o.f32().map(|v| fbits(v));
+                    let composed = match which {
+                        // (vel, pos): state = (pos, vel, acc = sample)
+                        ToState::A2S => match (bits(&twin[j].1), bits(&twin[j].0)) {
+                            (Some(p), Some(v)) => Out::Some(*t, Val::S([p, v, x.to_bits()])),
+                            _ => Out::None,
+                        },
+                        // (vel, acc): state = (pos = sample, vel, acc)
+                        ToState::P2S => match (bits(&twin[j].0), bits(&twin[j].1)) {
+                            (Some(v), Some(a)) => Out::Some(*t, Val::S([x.to_bits(), v, a])),
+                            _ => Out::None,
+                        },
+                        // (acc, pos): state = (pos, vel = sample, acc)
+                        ToState::V2S => match (bits(&twin[j].1), bits(&twin[j].0)) {
+                            (Some(p), Some(a)) => Out::Some(*t, Val::S([p, x.to_bits(), a])),
+                            _ => Out::None,
+                        },
+                    };
+                    if report(ctx, "C10", j, &step.out, &composed, "the state") {
+                        break;
+                    }
+                }
+            }
+            _ => {}
         }
     }
 
